@@ -39,6 +39,15 @@ case "$verb" in
     /bin/cat "$D/minimize.out"
     exit $(/bin/cat "$D/minimize.rc");;
   restore)
+    # which benchmark processes of this scenario are still running at this very moment?
+    # (a process killed directly with SIGKILL cannot log its own end)
+    for pid in $(grep -a '^start' "$D/log" | cut -d"$(printf '\037')" -f2); do
+      if [ -d "/proc/$pid" ] && ! grep -q '^State:[[:space:]]*Z' "/proc/$pid/status" 2>/dev/null; then
+        if ! grep -a -q "^stop$(printf '\037')$pid" "$D/log"; then
+          printf 'alive-at-restore%%s%%s\n' "$(printf '\037')" "$pid" >> "$D/log"
+        fi
+      fi
+    done
     echo '{}'
     exit 0;;
   kill)
